@@ -609,7 +609,19 @@ func (w *World) StakingParamChange() ParamChange {
 	vp := w.Params.Validator
 	u := func(key string, v uint64) ParamChange { return ParamChange{Space: fsm.ParamSpaceVal, Key: key, U: v} }
 	pick := func(label string, vs ...uint64) uint64 { return vs[w.Src.Int(label, 0, len(vs)-1)] }
-	switch w.Src.Int("param", 0, 15+w.Opts.CommitteeParamWeight) {
+	switch x := w.Src.Int("param", 0, 17+w.Opts.CommitteeParamWeight); {
+	case x >= 18:
+		// committee shape (C13): caps around the current population size
+		n := uint64(len(w.ValAddrs))
+		if w.Src.Int("capkind", 0, 2) == 0 {
+			return u(fsm.ParamMaximumDelegatesPerCommittee, pick("maxd", 0, 1, 2, 3, n))
+		}
+		return u(fsm.ParamMaxCommitteeSize, pick("maxs", 1, 2, 3, max(n/2, 1), max(n, 2)-1, n+1, 100))
+	case x >= 16:
+		// the chain announces its own retirement: the controller then stamps Results.Retired on the chain's own certificates
+		return ParamChange{Space: fsm.ParamSpaceCons, Key: fsm.ParamRetired, U: pick("retired", 0, 1, 1, 7)}
+	}
+	switch w.Src.Int("param16", 0, 15) {
 	case 0, 1:
 		// never above the pillars' stake: they keep the own committee non-empty
 		return u(fsm.ParamMinimumStakeForValidators, min(w.Opts.PillarStake, pick("minv", 0, 2, 5, 10, vp.MinimumStakeForValidators+1, 150, 5000)))
@@ -646,18 +658,10 @@ func (w *World) StakingParamChange() ParamChange {
 		}
 		return u(fsm.ParamEarlyWithdrawalPenalty, pick("ewp", 0, 20, 100))
 	case 15:
-		if w.Src.Int("cons?", 0, 1) == 0 {
-			// the chain announces its own retirement: the controller then stamps Results.Retired on the chain's own certificates
-			return ParamChange{Space: fsm.ParamSpaceCons, Key: fsm.ParamRetired, U: pick("retired", 0, 1, 1, 7)}
-		}
 		return ParamChange{Space: fsm.ParamSpaceCons, Key: fsm.ParamProtocolVersion, IsString: true,
 			S: fsm.NewProtocolVersion(w.C.Height()+uint64(w.Src.Int("pvh", 1, 4)), 2)}
-	default: // committee shape (C13): caps around the current population size
-		n := uint64(len(w.ValAddrs))
-		if w.Src.Int("capkind", 0, 2) == 0 {
-			return u(fsm.ParamMaximumDelegatesPerCommittee, pick("maxd", 0, 1, 2, 3, n))
-		}
-		return u(fsm.ParamMaxCommitteeSize, pick("maxs", 1, 2, 3, max(n/2, 1), max(n, 2)-1, n+1, 100))
+	default:
+		panic("unreachable")
 	}
 }
 
